@@ -292,4 +292,104 @@ theorem lex_flt (f : Nat) (d s : Nat) (hs : 1 ≤ s) (rest : List Char) (acc : L
       rw [hv]
       exact lex_space f rest _
 
+/-! ### the whole token list -/
+
+def lexFuel : List Tok → Nat
+  | [] => 1
+  | .p .hash :: ts => lexFuel ts + 1
+  | .nl :: ts => lexFuel ts + 1
+  | _ :: ts => lexFuel ts + 2
+
+theorem lexFuel_pos (ts : List Tok) : 1 ≤ lexFuel ts := by
+  induction ts with
+  | nil => simp [lexFuel]
+  | cons t ts ih =>
+    cases t with
+    | p x => cases x <;> simp [lexFuel] <;> omega
+    | nl => simp [lexFuel]
+    | id s => simp [lexFuel]
+    | num n => simp [lexFuel]
+    | flt a b => simp [lexFuel]
+    | str s => simp [lexFuel]
+
+theorem lexAux_render : ∀ (ts : List Tok), safeToks ts = true → ∀ (acc : List Tok) (F : Nat), lexFuel ts ≤ F →
+    lexAux F (renderToks ts) acc = some (acc.reverse ++ ts)
+  | [], _, acc, F, hF => by
+    obtain ⟨f, rfl⟩ : ∃ f, F = f + 1 := ⟨F - 1, by simp [lexFuel] at hF; omega⟩
+    simp [renderToks, lexAux]
+  | t :: ts, h, acc, F, hF => by
+    simp only [safeToks, List.all_cons, Bool.and_eq_true] at h
+    obtain ⟨ht, hts⟩ := h
+    have ih := fun acc' F' hF' => lexAux_render ts (by simpa [safeToks] using hts) acc' F' hF'
+    have hpos := lexFuel_pos ts
+    cases t with
+    | nl =>
+      obtain ⟨f, rfl⟩ : ∃ f, F = f + 1 := ⟨F - 1, by simp [lexFuel] at hF; omega⟩
+      simp only [renderToks]
+      rw [lex_nl, ih _ f (by simp [lexFuel] at hF; omega)]
+      simp
+    | id s =>
+      obtain ⟨f, rfl⟩ : ∃ f, F = f + 2 := ⟨F - 2, by simp [lexFuel] at hF; omega⟩
+      cases s with
+      | nil => simp [safeTok, validId] at ht
+      | cons c cs =>
+        simp only [renderToks, Tok.text]
+        rw [lex_id f c cs _ _ (by simpa [safeTok] using ht), ih _ f (by simp [lexFuel] at hF; omega)]
+        simp
+    | num n =>
+      obtain ⟨f, rfl⟩ : ∃ f, F = f + 2 := ⟨F - 2, by simp [lexFuel] at hF; omega⟩
+      simp only [renderToks, Tok.text]
+      rw [lex_num, ih _ f (by simp [lexFuel] at hF; omega)]
+      simp
+    | flt a b =>
+      obtain ⟨f, rfl⟩ : ∃ f, F = f + 2 := ⟨F - 2, by simp [lexFuel] at hF; omega⟩
+      simp only [renderToks, Tok.text]
+      rw [lex_flt f a b (by simpa [safeTok] using ht), ih _ f (by simp [lexFuel] at hF; omega)]
+      simp
+    | str s =>
+      obtain ⟨f, rfl⟩ : ∃ f, F = f + 2 := ⟨F - 2, by simp [lexFuel] at hF; omega⟩
+      simp only [renderToks, Tok.text]
+      rw [lex_str f s _ _ (by simpa [safeTok] using ht), ih _ f (by simp [lexFuel] at hF; omega)]
+      simp
+    | p x =>
+      by_cases hx : x = .hash
+      · subst hx
+        obtain ⟨f, rfl⟩ : ∃ f, F = f + 1 := ⟨F - 1, by simp [lexFuel] at hF; omega⟩
+        simp only [renderToks]
+        rw [lex_hash, ih _ f (by simp [lexFuel] at hF; omega)]
+        simp
+      · obtain ⟨f, rfl⟩ : ∃ f, F = f + 2 := ⟨F - 2, by cases x <;> simp [lexFuel] at hF hx ⊢ <;> omega⟩
+        have hr : renderToks (.p x :: ts) = x.text.toList ++ ' ' :: renderToks ts := by
+          cases x <;> first | exact absurd rfl hx | simp [renderToks, Tok.text]
+        rw [hr, lex_punct f x hx, ih _ f (by cases x <;> simp [lexFuel] at hF hx ⊢ <;> omega)]
+        simp
+
+theorem natDigits_len (n : Nat) : 1 ≤ (natDigits n).length := by
+  have := natDigits_ne_nil n
+  cases h : natDigits n with
+  | nil => exact absurd h this
+  | cons c cs => simp
+
+/-- the rendered text is long enough to serve as the lexer's fuel -/
+theorem lexFuel_le_length : ∀ (ts : List Tok), safeToks ts = true → lexFuel ts ≤ (renderToks ts).length + 1
+  | [], _ => by simp [lexFuel, renderToks]
+  | t :: ts, h => by
+    simp only [safeToks, List.all_cons, Bool.and_eq_true] at h
+    have ih := lexFuel_le_length ts (by simpa [safeToks] using h.2)
+    cases t with
+    | nl => simp [lexFuel, renderToks]; omega
+    | id s =>
+      cases s with
+      | nil => simp [safeTok, validId] at h
+      | cons c cs => simp [lexFuel, renderToks, Tok.text]; omega
+    | num n => have := natDigits_len n; simp [lexFuel, renderToks, Tok.text]; omega
+    | flt a b => simp [lexFuel, renderToks, Tok.text, fltText]; omega
+    | str s => simp [lexFuel, renderToks, Tok.text]; omega
+    | p x => cases x <;> simp [lexFuel, renderToks, Tok.text, P.text] <;> omega
+
+/-- **rendering then lexing is the identity** on token lists without hazards -/
+theorem lex_render (ts : List Tok) (h : safeToks ts = true) : lex (renderToks ts) = some ts := by
+  have := lexAux_render ts h [] ((renderToks ts).length + 1) (lexFuel_le_length ts h)
+  simpa [lex] using this
+
 end Drx.Spec
